@@ -20,15 +20,10 @@ HAND = ["<p>", "<>", "< a b >", '"a"', '%s"a"', '%i"a"', '%S"Ab"', '%I""', '""',
 
 
 def accept(P, rule, s):
-    try:
-        rule.parse_all(s)
-        return True
-    except P.ParseError:
-        return False
-    except P.GrammarError:
-        return "gerr"
-    except Exception as e:  # noqa
-        return "exc:" + type(e).__name__
+    """parse_all verdict; the request may be preceded by an abandoned / suspended listing or an attempt cut short by a foreign
+    exception on the same rule object (engine_corr.disturb_kind: a pure function of the text), which must not matter"""
+    import engine_corr as ec
+    return ec.accept_disturbed(P, rule, s)
 
 
 def has_7405_marker(s):
